@@ -169,7 +169,7 @@ def _search(rec, ctx):
     crng = ctx.rng("corpus")
     corp = [s for _, s in corpus.sample_statements(crng, 30 if ctx.thorough else 3, per_file=40 if ctx.thorough else 20) if len(s) < 1500]
 
-    drive(soup.soup, lambda s: check(rec, {"src": s, "stream": "soup"}), ctx.budget(12000, 400000), ctx.hseed("soup"))
+    drive(soup.soup, lambda s: check(rec, {"src": s, "stream": "soup"}), ctx.budget(12000, 150000), ctx.hseed("soup"))
 
     def mut(rnd):
         pool = seeds if rnd.random() < 0.5 or not corp else corp
@@ -177,7 +177,7 @@ def _search(rec, ctx):
         src, op = mutate.mutate(rnd, base, xonsh=True, nasty=True)
         check(rec, {"src": src, "stream": "mutation"})
 
-    drive(st.randoms(use_true_random=False), mut, ctx.budget(8000, 200000), ctx.hseed("mut"))
+    drive(st.randoms(use_true_random=False), mut, ctx.budget(8000, 80000), ctx.hseed("mut"))
 
     def g1(rnd):
         g = PyGen(rnd, nonascii=rnd.random() < 0.3)
@@ -185,7 +185,7 @@ def _search(rec, ctx):
         src, op = mutate.mutate(rnd, src, xonsh=True, nasty=True) if rnd.random() < 0.7 else (src, "none")
         check(rec, {"src": src, "stream": "g1-mutated"})
 
-    drive(st.randoms(use_true_random=False), g1, ctx.budget(3000, 60000), ctx.hseed("g1"))
+    drive(st.randoms(use_true_random=False), g1, ctx.budget(3000, 30000), ctx.hseed("g1"))
 
     # construct-aware stream: short generated xonsh constructs / command lines / macros with 1-3 token edits
     # (dense mutations inside the construct, where the hand-written builders of subheader.py take over)
@@ -210,7 +210,7 @@ def _search(rec, ctx):
         ctxs = ["{}", "{}\n", "x = {}\n", "f({}, 1)\n", "if {}:\n    pass\n", "[{} for i in j]\n", "{}; y = 2\n"]
         check(rec, {"src": ctxs[rnd.randrange(len(ctxs))].format(text) if "{" not in text and "}" not in text else text, "stream": "construct-mutation"})
 
-    drive(st.randoms(use_true_random=False), construct, ctx.budget(16000, 400000), ctx.hseed("construct"))
+    drive(st.randoms(use_true_random=False), construct, ctx.budget(16000, 150000), ctx.hseed("construct"))
 
     # every ordered pair / triple of adjacent string-literal kinds (str, bytes, f-string with text at either end, raw, u,
     # triple-quoted, path literals): the hand-written concatenation code must answer each with a tree or a SyntaxError
@@ -266,7 +266,7 @@ def _search(rec, ctx):
             src = seeds[rnd.randrange(len(seeds))][:200] + "\n" + base
         check(rec, {"src": src, "stream": "gated-syntax-with-options", "options": True})
 
-    drive(st.randoms(use_true_random=False), gated, ctx.budget(1200, 20000), ctx.hseed("gated"))
+    drive(st.randoms(use_true_random=False), gated, ctx.budget(1200, 10000), ctx.hseed("gated"))
 
     # numeric literals at and beyond the limits of their evaluation (int digit limit, float overflow, huge exponents)
     BIG = ["9" * 4300, "9" * 4301, "0" * 4301, "7" * 20000, "1_" * 2200 + "1", "0x" + "f" * 5000, "0b" + "1" * 20000, "0o" + "7" * 6000, "1e99999", "1" * 400 + ".5e-" + "9" * 30, "9" * 4301 + "j",
@@ -290,7 +290,7 @@ def _search(rec, ctx):
             check(rec, {"src": "x = " + o * n + "a" + c * n + "\n", "stream": "nesting-default-limit", "default_limit": True, "depth": n})
 
     if ctx.thorough:
-        atheris_campaign(rec, ctx, 400000, 96)
+        atheris_campaign(rec, ctx, 200000, 96)
     else:
         atheris_campaign(rec, ctx, 12000, 48)
 
